@@ -24,6 +24,12 @@ def hm(el, how):
 
     R = np.array(el["R"], dtype=float)
     t = np.array(el["t"], dtype=float)
+    if how == "int-translation":       # the lattice translations are integers: as a tuple of Python ints, rotation as a quaternion
+        from pyquaternion import Quaternion as _Q
+
+        from perception_eval.common.transform import HomogeneousMatrix as _H
+
+        return _H(tuple(int(v) for v in el["t"]), _Q(matrix=R), src=el["src"], dst=el["dst"])
     if how == "matrix":
         rot = R
     else:
@@ -49,7 +55,7 @@ def replay_pair(arg):
     A, B, pose, out = arg
     mism = []
     n = 0
-    for how in ("quat", "negquat", "matrix", "4x4"):
+    for how in ("quat", "negquat", "matrix", "4x4", "int-translation"):
         n += 1
         rep = {"A": A, "B": B, "pose": pose, "input_form": how, "spec": out}
         try:
